@@ -595,4 +595,140 @@ theorem loadOrder_extends (cfg : Cfg) (fs : FS) (fuel : Nat) (file spelled : APa
           exact ⟨e ++ [.finished file], by rw [he, List.append_assoc]⟩
       | _ => exact ⟨[], by simp⟩
 
+/-! ### the finished files as a program -/
+
+/-- an IDL file inside the grammar -/
+def Parsable (fs : FS) (p : APath) : Prop := ∃ text f, fs.get p = some (.idl text) ∧ parseText text = some f
+
+def EvOk (fs : FS) (evs : List LoadEvent) : Prop := ∀ p, LoadEvent.finished p ∈ evs → Parsable fs p
+
+theorem loadStep_evOk (cfg : Cfg) (fs : FS) (rec : APath → APath → OrderAcc → OrderAcc)
+    (hrec : ∀ p s a, EvOk fs a.2 → EvOk fs (rec p s a).2) (spelled : APath) (acc : OrderAcc) (l : LoadAt)
+    (ha : EvOk fs acc.2) : EvOk fs (loadStep cfg fs rec spelled acc l).2 := by
+  unfold loadStep
+  split
+  · exact ha
+  · split
+    · split
+      · exact ha
+      · exact hrec _ _ _ ha
+    · split
+      · intro q hq
+        simp only [List.mem_append, List.mem_singleton] at hq
+        rcases hq with hq | hq
+        · exact ha q hq
+        · cases hq
+      · exact ha
+
+theorem foldl_loadStep_evOk (cfg : Cfg) (fs : FS) (rec : APath → APath → OrderAcc → OrderAcc)
+    (hrec : ∀ p s a, EvOk fs a.2 → EvOk fs (rec p s a).2) (spelled : APath) (loads : List LoadAt) (acc : OrderAcc)
+    (ha : EvOk fs acc.2) : EvOk fs (loads.foldl (loadStep cfg fs rec spelled) acc).2 := by
+  induction loads generalizing acc with
+  | nil => exact ha
+  | cons l ls ih =>
+    simp only [List.foldl_cons]
+    exact ih _ (loadStep_evOk cfg fs rec hrec spelled acc l ha)
+
+theorem loadOrder_evOk (cfg : Cfg) (fs : FS) (fuel : Nat) (file spelled : APath)
+    (acc : OrderAcc) (ha : EvOk fs acc.2) : EvOk fs (loadOrder cfg fs fuel file spelled acc).2 := by
+  induction fuel generalizing file spelled acc with
+  | zero => exact ha
+  | succ n ih =>
+    simp only [loadOrder]
+    cases hf : fs.get file with
+    | none => exact ha
+    | some fc =>
+      cases fc with
+      | idl text =>
+        simp only []
+        cases hp : parseText text with
+        | none => exact ha
+        | some f =>
+          simp only []
+          intro q hq
+          simp only [List.mem_append, List.mem_singleton] at hq
+          rcases hq with hq | hq
+          · exact foldl_loadStep_evOk cfg fs _ (fun p s a h => ih p s a h) spelled f.loads acc ha q hq
+          · cases hq; exact ⟨text, f, hf, hp⟩
+      | _ => exact ha
+
+/-- Every file of the finish order is an IDL file inside the grammar. -/
+theorem finishOrder_parsable (cfg : Cfg) (fs : FS) (fuel : Nat) (file spelled : APath) (visited : List APath) :
+    ∀ p ∈ (finishOrder cfg fs fuel file spelled (visited, [])).2, Parsable fs p := by
+  intro p hp
+  rw [← loadOrder_files, List.mem_filterMap] at hp
+  obtain ⟨e, he, hfile⟩ := hp
+  cases e with
+  | finished q =>
+    simp only [LoadEvent.file?, Option.some.injEq] at hfile
+    subst hfile
+    exact loadOrder_evOk cfg fs fuel file spelled (visited, []) (fun _ h => by cases h) _ he
+  | extern q => simp [LoadEvent.file?] at hfile
+
+/-- a file of the program, as parsed -/
+def progFile (fs : FS) (p : APath) : ProgFile :=
+  { file := showPath p,
+    contents := match fs.get p with
+      | some (.idl text) => (match parseText text with | some f => f.contents | none => [])
+      | _ => [] }
+
+theorem declDefs_progFile (fs : FS) (p : APath) : declDefs (progFile fs p).contents = fileDefs fs p := by
+  unfold progFile fileDefs
+  cases fs.get p with
+  | none => rfl
+  | some fc =>
+    cases fc with
+    | idl text =>
+      simp only []
+      cases parseText text <;> rfl
+    | _ => rfl
+
+theorem progFilesOf_eq (fs : FS) (order : List APath) (h : ∀ p ∈ order, Parsable fs p) :
+    progFilesOf fs order = some (order.map (progFile fs)) := by
+  induction order with
+  | nil => rfl
+  | cons p ps ih =>
+    obtain ⟨text, f, hf, hp⟩ := h p (by simp)
+    have ih' := ih (fun q hq => h q (List.mem_cons_of_mem _ hq))
+    unfold progFilesOf at ih' ⊢
+    simp only [List.foldr_cons, ih', hf, hp, List.map_cons, progFile]
+
+/-- `programInOrder` always answers: the files of the finish order, as parsed. -/
+theorem programInOrder_eq (cfg : Cfg) (fs : FS) (root : APath) :
+    programInOrder cfg fs.files root = some ((rootOrder cfg fs root).map (progFile fs)) := by
+  unfold programInOrder
+  exact progFilesOf_eq fs _ (finishOrder_parsable cfg fs _ _ _ _)
+
+theorem progRegistry_eq (pre : Registry) (prog : List ProgFile) :
+    progRegistry pre prog = pre ++ prog.flatMap (fun f => declDefs f.contents) := by
+  simp only [progRegistry, progDecls, declDefs, List.map_flatMap, List.map_map]
+  rfl
+
+theorem progRegistry_order (fs : FS) (pre : Registry) (order : List APath) :
+    progRegistry pre (order.map (progFile fs)) = pre ++ order.flatMap (fileDefs fs) := by
+  rw [progRegistry_eq, List.flatMap_map]
+  congr 2
+  funext p
+  exact declDefs_progFile fs p
+
+theorem rootEvents_files (cfg : Cfg) (fs : FS) (root : APath) :
+    (rootEvents cfg fs root).filterMap LoadEvent.file? = rootOrder cfg fs root :=
+  loadOrder_files cfg fs _ _ _ _
+
+theorem Visited.root (root : APath) : Visited [normPath root] ([] ++ [normPath root]) ({ reg := builtins } : PState).imported := by
+  intro q; simp
+
+/-- **The final registry of a run.** If the front end's root call succeeds and no `@extern` line loaded an external
+    type file, the registry at the end is the registry of the program `programInOrder` (the driver's reading of the
+    program: files in finish order): built-ins, then every declaration, file by file in finish order. -/
+theorem front_final_registry (cfg : Cfg) (fs : FS) (builtins : Registry) (root : APath) (res : PResult) (st : PState)
+    (h : parseOne cfg fs (fs.files.length + 2) [] (normPath root) root { reg := builtins } = .ok (res, st))
+    (hne : AllFinished (rootEvents cfg fs root)) :
+    ∃ prog, programInOrder cfg fs.files root = some prog ∧ st.reg = progRegistry builtins prog := by
+  refine ⟨_, programInOrder_eq cfg fs root, ?_⟩
+  obtain ⟨h1, _⟩ := parseOne_finish_order cfg fs _ [] _ root _ res st [normPath root] h (SelfOk.root fs root)
+    (Visited.root root) hne
+  rw [progRegistry_order]
+  exact h1
+
 end Pydjinni.Front
